@@ -343,7 +343,7 @@ class ClientWebSocketResponse(Generic[_DecodeText]):
             self._response.close()
             return True
 
-        if self._close_code:
+        if self._close_code is not None:  # (0: a Close frame without a status code)
             self._response.close()
             return True
 
